@@ -298,7 +298,7 @@ pub trait String:
 
     /// Removes a character at the provided index and returns it.
     fn remove(&mut self, idx: usize) -> Option<u8> {
-        if self.len() < idx {
+        if self.len() <= idx {
             return None;
         }
 
